@@ -15,9 +15,9 @@ CHECKS = {
     note=TB + "; libc routines are assumed reentrant except the listed MT-unsafe set; tmpfile_s's documented call counter is a recorded known finding"),
  "C09": dict(
     engine="derive",
-    technique="call-graph format-flow classification of all 28 printf/scanf entry points; va_list load-depth pointer derivation in the formatter; filter-language vs libc-directive-grammar intersection by enumeration",
+    technique="call-graph format-flow classification of all 28 printf/scanf entry points; va_list load-depth pointer derivation in the formatter; path-sensitive decision of which outcomes of the \"%n\" search reach the libc call; filter-language vs libc-directive-grammar intersection by enumeration",
     category="other",
-    text="For every format string at once: (E) in the library's own formatter no store or writing effect can go through a caller-supplied variadic pointer on any path (exact over the IR), and the 'n' arm only fails; (D) for entry points that delegate to libc, the code inspecting the format is classified and its accepted language is intersected with libc's %n-executing language, yielding a concrete accepted format when the filter is unsound. Unclassifiable filters are reported as not decided, never as violations.",
+    text="For every format string at once: (E) in the library's own formatter no store or writing effect can go through a caller-supplied variadic pointer on any path (exact over the IR), and the 'n' arm only fails; (D) for entry points that delegate to libc, the code inspecting the format is classified by shape and what its guard lets through is decided on all paths (search outcome: not found / at offset 0 / behind '%' / behind another character); the accepted language is intersected with libc's %n-executing language, yielding a concrete accepted format when the filter is unsound. Unclassifiable filters are reported as not decided, never as violations.",
     design_ref="DESIGN.md §4 C09",
     note=TB + "; clang's x86-64 SysV va_arg lowering; libc directive grammars as modelled in sa/checks/c09.py; 21 delegating entry points are recorded known findings (unsound literal \"%n\" pre-scan, reproduced)"),
  "C19": dict(
@@ -87,14 +87,14 @@ CHECKS = {
     engine="capcheck",
     technique="relational abstract interpretation of the cursor/budget idiom: linear loop equalities (null space of header-phi increments), lock-step and range candidates proved by induction (Houdini), dominating branch guards, Fourier-Motzkin entailment of 0 <= off and off + size <= declared capacity for every write",
     category="other",
-    text="For every size relation and content at once: each store, memset/memcpy/memmove, libc writer and clearing/moving helper call in all 243 function definitions carries the obligation that the written range lies inside the buffer's declared capacity (caller's dmax under the truthfulness premise, local arrays, globals). 497 of 633 obligations are discharged; undischarged ones are known findings (40, genuine), listed reach limits (96 obligations in functions the domain cannot treat: unrolled primitives, smoothsort, Unicode tables, second-pass scans) or violations. Both object-size branches are in the IR and covered.",
+    text="For every size relation and content at once: each store, memset/memcpy/memmove, libc writer and clearing/moving helper call in all 243 function definitions carries the obligation that the written range lies inside the buffer's declared capacity (caller's dmax under the truthfulness premise, local arrays, globals). 497 of 632 obligations are discharged (constant-offset accesses the relational domain cannot settle because of correlated branches get a path-sensitive second opinion); undischarged ones are known findings (40 + 5 no-slack, genuine), listed reach limits (95 obligations in functions the domain cannot treat: unrolled primitives, smoothsort, Unicode tables, second-pass scans) or violations. Both object-size branches are in the IR and covered; the thorough tier repeats the analysis on the no-slack configuration (an access identical to one of the default build is the same finding).",
     design_ref="DESIGN.md §3.2, §4 C01",
-    note=TB + "; truthfulness premise; unsigned wrap-around ignored; functions in tables/cap_reach.json are not analysed and not claimed; the no-slack configuration is not yet run for C01"),
+    note=TB + "; truthfulness premise; unsigned wrap-around ignored; functions in tables/cap_reach.json are not analysed and not claimed"),
  "C02": dict(
     engine="capcheck",
     technique="same relational abstract interpretation as C01 applied to every load and reading effect; facts must hold at the evaluation of the access (deref-before-counter loops fail); NUL-bounded libc readers on length-declared buffers are undischargeable by construction",
     category="other",
-    text="Each load, memcpy source, libc reader and helper call carries the obligation that the read range lies inside the declared extent (dmax of dest, slen/n/len of a length-declared source, local arrays, constant tables), including lower bounds for backward scans. 299 of 441 obligations are discharged; 22 known findings; 120 obligations in listed reach-limited functions are not claimed. Sources without a declared length produce no obligations (that they are read only up to their terminator is not decided).",
+    text="Each load, memcpy source, libc reader and helper call carries the obligation that the read range lies inside the declared extent (dmax of dest, slen/n/len of a length-declared source, local arrays, constant tables), including lower bounds for backward scans. 304 of 444 obligations are discharged; 22 known findings; 118 obligations in listed reach-limited functions are not claimed. A nested call to a library function that never writes its dest (42 search/compare functions, from the write summaries) is a read obligation on the length handed down. A pointer without a declared length that the function measures with strnlen_s/wcsnlen_s gets the measured length (+ terminator) as its extent from there on; other sources without a declared length produce no obligations (that they are read only up to their terminator is not decided). Thorough: also the no-slack configuration.",
     design_ref="DESIGN.md §3.2, §4 C02",
     note=TB + "; truthfulness premise; functions in tables/cap_reach.json are not analysed and not claimed; two fix: commits in /repo repaired 31 deref-before-counter loops"),
  "C07": dict(
@@ -108,7 +108,7 @@ CHECKS = {
     engine="capcheck",
     technique="relational abstract interpretation: for every zeroing memset and every zero-only store loop into a caller buffer the equality 'start offset + length == declared size' is entailed in both directions from the loop invariants",
     category="other",
-    text="Decides a necessary structural clause for all result lengths and all dmax (including both sides of the 0x20 memset/loop switch, since both forms are obligations): slack clearing ends exactly at dest + dmax. A stale counter, a unit slip (elements for bytes) or a loop that stops early breaks the equality. That a terminator is present on every success path is C03 (thorough: no-slack build); that the elements in front are exactly the result is value-level (C06) and not decided.",
+    text="Decides a necessary structural clause for all result lengths and all dmax (including both sides of the 0x20 memset/loop switch, since both forms are obligations): slack clearing ends exactly at dest + dmax (a stale counter, a unit slip - elements for bytes - or a loop that stops early breaks the equality), and it starts without a gap: at the buffer start or not behind the end of something the function wrote (a store, or the element count returned by a converter/formatter); a start a constant distance behind every such write is reported, starts computed from a reloaded value are not decided (88 of 127 decided). That a terminator is present on every success path is C03 (thorough: no-slack build); that the elements in front are exactly the result is value-level (C06) and not decided.",
     design_ref="DESIGN.md §3.2, §4 C08",
     note=TB + "; functions in tables/cap_reach.json (4 clearing writes: strnset_s, wcsnset_s, wcsfc_s, wcsnorm_compose_s) are not analysed"),
  "C17": dict(
